@@ -41,6 +41,8 @@ func (a *loadAppender) pace() {
 	switch a.mode {
 	case "slow":
 		time.Sleep(20 * time.Microsecond)
+	case "fixed40ms":
+		time.Sleep(40 * time.Millisecond)
 	case "bursty":
 		if k%97 == 0 {
 			time.Sleep(2 * time.Millisecond)
@@ -94,6 +96,9 @@ func cmdAsyncLoad(f hx.Flags, r *hx.Result) {
 	polName := []string{"Block", "Discard", "DiscardOldest"}
 	modes := []string{"fast", "slow", "bursty"}
 	parkedProducers(r)
+	arrivalsSurvive(r)
+	twoLoggers(r)
+	slowDrain(r)
 	for run := 0; run < runs && !hx.Stopped(); run++ {
 		pi := run % 3
 		mode := modes[(run/3)%3]
@@ -104,10 +109,15 @@ func cmdAsyncLoad(f hx.Flags, r *hx.Result) {
 			producers, capacity, perProducer = 1, 100, 5100
 		}
 		app := &loadAppender{mode: mode}
+		// every fourth run: the default range [NONE, MAX) - then NONE, its inclusive lower bound, is an enabled level
+		minLevel := log.InfoLevel
+		if run%4 == 3 {
+			minLevel = log.NoneLevel
+		}
 		lg := &log.AsyncLogger{
-			LoggerBase: log.LoggerBase{Level: log.LevelRange{MinLevel: log.InfoLevel, MaxLevel: log.MaxLevel}},
+			LoggerBase: log.LoggerBase{Level: log.LevelRange{MinLevel: minLevel, MaxLevel: log.MaxLevel}},
 			AppenderRefs: log.AppenderRefs{AppenderRefs: []*log.AppenderRef{{Appender: app,
-				Level: log.LevelRange{MinLevel: log.InfoLevel, MaxLevel: log.MaxLevel}}}},
+				Level: log.LevelRange{MinLevel: minLevel, MaxLevel: log.MaxLevel}}}},
 			BufferSize: capacity, BufferFullPolicy: policies[pi],
 		}
 		if rng.Intn(3) == 0 {
@@ -118,7 +128,11 @@ func cmdAsyncLoad(f hx.Flags, r *hx.Result) {
 			r.SetInfra("start: %v", err)
 			return
 		}
-		rec := loadRun{Policy: polName[pi], Cap: capacity, Producers: producers, Mode: mode, Submitted: make([][]int64, producers)}
+		rec := loadRun{Policy: polName[pi], Cap: capacity, Producers: producers, Mode: mode, Submitted: make([][]int64, producers),
+			Disabled: []int64{}, Delivered: []int64{}}
+		for i := range rec.Submitted {
+			rec.Submitted[i] = []int64{} // never null in the dump
+		}
 		var dmu sync.Mutex
 		var wg sync.WaitGroup
 		ctx := context.Background()
@@ -139,6 +153,12 @@ func cmdAsyncLoad(f hx.Flags, r *hx.Result) {
 				for k := 1; k <= perProducer; k++ {
 					id := int64(p+1)*1000000 + int64(k)
 					switch c := prng.Intn(10); {
+					case c == 0 && minLevel == log.NoneLevel: // the lowest enabled level
+						e := log.GetEvent()
+						e.Level, e.Time, e.Tag = log.NoneLevel, time.Now(), "load"
+						e.Fields = []log.Field{log.Int("id", id)}
+						lg.Append(e)
+						rec.Submitted[p] = append(rec.Submitted[p], id)
 					case c == 0: // disabled level
 						e := log.GetEvent()
 						e.Level = log.DebugLevel
@@ -183,7 +203,7 @@ func cmdAsyncLoad(f hx.Flags, r *hx.Result) {
 		}
 		// immediately after Stop returned
 		app.mu.Lock()
-		rec.Delivered = append([]int64(nil), app.ids...)
+		rec.Delivered = append([]int64{}, app.ids...)
 		app.mu.Unlock()
 		rec.Discards = lg.GetDiscardCounter()
 		r.Eval(int64(producers * perProducer))
@@ -260,6 +280,199 @@ func parkedProducers(r *hx.Result) {
 		}
 		r.Eval(3200)
 		r.NonTrivial(1)
+	}
+}
+
+// gatedLogger builds an asynchronous logger on a gated recording appender, parks the worker inside the appender on
+// a first item and fills the buffer to its capacity (100) behind it.  Items are numbered from 1.
+func gatedLogger(pol log.BufferFullPolicy) (*log.AsyncLogger, *sys.RecAppender, error) {
+	gate := &sys.RecAppender{Gate: make(chan struct{}), Entered: make(chan int64, 1<<16)}
+	lg := &log.AsyncLogger{
+		LoggerBase: log.LoggerBase{Level: log.LevelRange{MinLevel: log.InfoLevel, MaxLevel: log.MaxLevel}},
+		AppenderRefs: log.AppenderRefs{AppenderRefs: []*log.AppenderRef{{Appender: gate,
+			Level: log.LevelRange{MinLevel: log.InfoLevel, MaxLevel: log.MaxLevel}}}},
+		BufferSize: 100, BufferFullPolicy: pol,
+	}
+	if err := lg.Start(); err != nil {
+		return nil, nil, err
+	}
+	put := func(id int64) {
+		e := log.GetEvent()
+		e.Level, e.Time, e.Tag = log.InfoLevel, time.Now(), "load"
+		e.Fields = []log.Field{log.Int("id", id)}
+		lg.Append(e)
+	}
+	put(1)
+	select {
+	case <-gate.Entered: // the worker holds item 1 inside the appender
+	case <-time.After(8 * time.Second):
+		return nil, nil, fmt.Errorf("the worker did not take the first item")
+	}
+	for id := int64(2); id <= 101; id++ {
+		put(id)
+	}
+	return lg, gate, nil
+}
+
+// arrivalsSurvive: DiscardOldest keeps the arriving item.  The buffer is full of fillers, the worker parked; 8
+// producers submit 10 items each at the same time.  Fewer arrivals than fillers: every arrival must be delivered in
+// the end, exactly the oldest fillers are gone, and the counter equals the number of arrivals.
+func arrivalsSurvive(r *hx.Result) {
+	for round := 0; round < 25 && !hx.Stopped(); round++ {
+		lg, gate, err := gatedLogger(log.BufferFullPolicyDiscardOldest)
+		if err != nil {
+			r.SetInfra("arrivalsSurvive: %v", err)
+			return
+		}
+		const P, K = 8, 10
+		var wg sync.WaitGroup
+		start := make(chan struct{})
+		for p := 1; p <= P; p++ {
+			wg.Add(1)
+			go func(p int) {
+				defer wg.Done()
+				<-start
+				for k := 1; k <= K; k++ {
+					id := int64(p)*1000000 + int64(k)
+					if k%4 == 0 {
+						lg.Write([]byte(fmt.Sprintf("RAW id=%d payload\n", id)))
+						continue
+					}
+					e := log.GetEvent()
+					e.Level, e.Time, e.Tag = log.InfoLevel, time.Now(), "load"
+					e.Fields = []log.Field{log.Int("id", id)}
+					lg.Append(e)
+				}
+			}(p)
+		}
+		close(start)
+		done := make(chan struct{})
+		go func() { wg.Wait(); close(done) }()
+		desc := map[string]any{"policy": "DiscardOldest", "fillers": 100, "producers": P, "arrivals_each": K, "round": round}
+		select {
+		case <-done:
+		case <-time.After(8 * time.Second):
+			r.Violate("producers-blocked:DiscardOldest", desc, "arrivals on a full buffer did not all return within 8 s")
+			close(gate.Gate)
+			return
+		}
+		discards := lg.GetDiscardCounter()
+		close(gate.Gate)
+		if ret, pv := hx.Within(15*time.Second, func() { lg.Stop() }); !ret || pv != nil {
+			r.Violate("stop-failed", desc, "Stop returned=%v panic=%v", ret, pv)
+			return
+		}
+		r.Eval(P * K)
+		seen := map[int64]int{}
+		for _, rc := range gate.Recs() {
+			seen[rc.ID]++
+		}
+		missing := 0
+		for p := 1; p <= P; p++ {
+			for k := 1; k <= K; k++ {
+				if seen[int64(p)*1000000+int64(k)] != 1 {
+					missing++
+				}
+			}
+		}
+		keptOld := 0
+		for id := int64(2); id <= 101-int64(P*K); id++ { // the oldest fillers behind the held one must be gone
+			keptOld += seen[id]
+		}
+		if missing > 0 || discards != P*K || keptOld > 0 {
+			r.Violate("discardoldest-dropped-arrival", desc, "%d of %d arriving items were not delivered, %d of the oldest fillers survived, discard counter %d (want 0, 0, %d)", missing, P*K, keptOld, discards, P*K)
+			return
+		}
+	}
+}
+
+// twoLoggers: overflow handling of one asynchronous logger must not depend on another one.  Logger A (Block) is full
+// with a producer waiting for space; logger B (a discard policy) is full too: a call on B still returns at once.
+func twoLoggers(r *hx.Result) {
+	for _, pol := range []log.BufferFullPolicy{log.BufferFullPolicyDiscard, log.BufferFullPolicyDiscardOldest} {
+		name := map[log.BufferFullPolicy]string{log.BufferFullPolicyDiscard: "Discard", log.BufferFullPolicyDiscardOldest: "DiscardOldest"}[pol]
+		a, gateA, err := gatedLogger(log.BufferFullPolicyBlock)
+		if err != nil {
+			r.SetInfra("twoLoggers: %v", err)
+			return
+		}
+		b, gateB, err := gatedLogger(pol)
+		if err != nil {
+			r.SetInfra("twoLoggers: %v", err)
+			return
+		}
+		waiting := make(chan struct{})
+		go func() { // blocks in A's overflow path until A's worker is released
+			e := log.GetEvent()
+			e.Level, e.Time, e.Tag = log.InfoLevel, time.Now(), "load"
+			e.Fields = []log.Field{log.Int("id", 102)}
+			a.Append(e)
+			close(waiting)
+		}()
+		time.Sleep(100 * time.Millisecond)
+		desc := map[string]any{"logger_A": "Block, full, one producer waiting", "logger_B": name + ", full"}
+		ret, pv := hx.Within(5*time.Second, func() {
+			e := log.GetEvent()
+			e.Level, e.Time, e.Tag = log.InfoLevel, time.Now(), "load"
+			e.Fields = []log.Field{log.Int("id", 102)}
+			b.Append(e)
+			b.Write([]byte("RAW id=103 payload\n"))
+		})
+		r.Eval(2)
+		if !ret || pv != nil {
+			r.Violate("call-blocked-by-other-logger:"+name, desc, "a call on logger B returned=%v panic=%v while a producer of logger A waits for space", ret, pv)
+		}
+		close(gateA.Gate)
+		close(gateB.Gate)
+		select {
+		case <-waiting:
+		case <-time.After(8 * time.Second):
+			r.Violate("producers-blocked:Block", desc, "logger A's waiting producer did not return after the worker was released")
+			return
+		}
+		for _, lg := range []*log.AsyncLogger{a, b} {
+			if ret, pv := hx.Within(15*time.Second, func() { lg.Stop() }); !ret || pv != nil {
+				r.Violate("stop-failed", desc, "Stop returned=%v panic=%v", ret, pv)
+				return
+			}
+		}
+	}
+}
+
+// slowDrain: Stop returns only when the backlog has been delivered, however long the appender takes (90 items at
+// 40 ms each: 3.6 s).
+func slowDrain(r *hx.Result) {
+	app := &loadAppender{mode: "fixed40ms"}
+	lg := &log.AsyncLogger{
+		LoggerBase: log.LoggerBase{Level: log.LevelRange{MinLevel: log.InfoLevel, MaxLevel: log.MaxLevel}},
+		AppenderRefs: log.AppenderRefs{AppenderRefs: []*log.AppenderRef{{Appender: app,
+			Level: log.LevelRange{MinLevel: log.InfoLevel, MaxLevel: log.MaxLevel}}}},
+		BufferSize: 100, BufferFullPolicy: log.BufferFullPolicyBlock,
+	}
+	if err := lg.Start(); err != nil {
+		r.SetInfra("slowDrain: %v", err)
+		return
+	}
+	for id := int64(1); id <= 90; id++ {
+		e := log.GetEvent()
+		e.Level, e.Time, e.Tag = log.InfoLevel, time.Now(), "load"
+		e.Fields = []log.Field{log.Int("id", id)}
+		lg.Append(e)
+	}
+	desc := map[string]any{"policy": "Block", "backlog_at_stop": "about 90 items x 40 ms"}
+	t0 := time.Now()
+	ret, pv := hx.Within(30*time.Second, func() { lg.Stop() })
+	if !ret || pv != nil {
+		r.Violate("stop-failed", desc, "Stop returned=%v panic=%v", ret, pv)
+		return
+	}
+	app.mu.Lock()
+	n := len(app.ids)
+	app.mu.Unlock()
+	r.Eval(90)
+	if n != 90 || lg.GetDiscardCounter() != 0 {
+		r.Violate("conservation:Block", map[string]any{"policy": "Block", "backlog_at_stop": "about 90 items x 40 ms", "stop_took_ms": time.Since(t0).Milliseconds()},
+			"when Stop returned (after %d ms) %d of 90 submitted items had been delivered, discard counter %d", time.Since(t0).Milliseconds(), n, lg.GetDiscardCounter())
 	}
 }
 
